@@ -452,13 +452,16 @@ mod builtins {
                     None => (0, lower),
                 };
 
+                // the distance between the bounds and the negated step do
+                // not necessarily fit into an isize.
+                let (start, end, step) = (start as i128, end as i128, step as i128);
                 let len = if start <= end {
                     0
                 } else {
                     ((start - end + (-step) - 1) / (-step)) as usize
                 };
 
-                let iter = (0..len).map(move |i| start + (i as isize) * step);
+                let iter = (0..len).map(move |i| (start + (i as i128) * step) as isize);
                 to_result(iter)
             }
         }
